@@ -24,8 +24,8 @@ NULL = Literal("null", value=None)
 JsonString = EmptyQuotedString(string.printable) % "quoted string"
 SimpleValue = (Number | JsonString | JsonObject | JsonArray | TRUE | FALSE | NULL)
 JsonValue = (WS >> SimpleValue << WS)
-Key = (JsonString << Colon)
+Key = (JsonString << WS << Colon)
 KVPairs = (((WS >> Key) + JsonValue).sep_by(Comma))
-JsonArray <= (LeftBracket >> JsonValue.sep_by(Comma) << RightBracket)
-JsonObject <= (LeftCurly >> KVPairs.map(lambda res: dict((k, v) for (k, v) in res)) << RightCurly)
+JsonArray <= (LeftBracket >> WS >> JsonValue.sep_by(Comma) << RightBracket)
+JsonObject <= (LeftCurly >> WS >> KVPairs.map(lambda res: dict((k, v) for (k, v) in res)) << RightCurly)
 Top = JsonValue + EOF
